@@ -503,6 +503,11 @@ func c06Dedicated(c *rt.Ctx, fsType string, trees [][]fsx.Op, idx *int, st *c06S
 			// the target of the link comes and goes again between the walks of MkdirAll (thorough seed 2, round 6)
 			{{{K: "MkdirAll", P: "/w/a/x", Perm: 0o755}}, {{K: "OpenWriteClose", P: "/w/b", Flag: syscall.O_WRONLY | syscall.O_CREAT | syscall.O_EXCL, Perm: 0o644}, {K: "Remove", P: "/w/b"}}, {{K: "Symlink", P: "/w/b", Q: "/w/a"}}},
 			{{{K: "MkdirAll", P: "/w/a/x", Perm: 0o755}}, {{K: "Mkdir", P: "/w/d/c", Perm: 0o755}, {K: "Remove", P: "/w/d/c"}}, {{K: "Symlink", P: "/w/d/c", Q: "/w/a"}}},
+			// a query whose walk is overtaken by a move of the directory it is in and a creation at the new place: the
+			// answer "exists" under the old path is the answer of no order
+			{{{K: "Lstat", P: "/w/d/x"}}, {{K: "Rename", P: "/w/d", Q: "/w/e"}, {K: "Mkdir", P: "/w/e/x", Perm: 0o755}}},
+			{{{K: "Mkdir", P: "/w/d/x", Perm: 0o755}}, {{K: "Rename", P: "/w/d", Q: "/w/e"}, {K: "OpenWriteClose", P: "/w/e/x", Flag: syscall.O_WRONLY | syscall.O_CREAT | syscall.O_EXCL, Perm: 0o644}}},
+			{{{K: "Stat", P: "/w/d/x"}, {K: "Readlink", P: "/w/d/x"}}, {{K: "Rename", P: "/w/d", Q: "/w/e"}, {K: "Symlink", P: "zz", Q: "/w/e/x"}}, {{K: "Chdir", P: "/w/d/x"}}},
 		}
 		for _, progs := range fixed {
 			for ti, tree := range trees {
